@@ -11,6 +11,7 @@ import (
 
 	"github.com/philpearl/plenc"
 	"github.com/philpearl/plenc/plenccodec"
+	"github.com/philpearl/plenc/plenccore"
 	"github.com/unravelin/null"
 
 	"verifharness/core"
@@ -47,6 +48,88 @@ type c19Plain struct {
 	P *string                  `plenc:"6"`
 	M map[string]c19InnerPlain `plenc:"7"`
 	I int                      `plenc:"8"`
+}
+
+// revStrCodec is a user's own codec for the named string type MarkStr: the bytes are written back to
+// front. With it registered, the intern option on a MarkStr field has nothing to intern (the codec
+// offers no interning) and must change nothing.
+type revStrCodec struct{}
+
+func revBytes(s string) []byte {
+	b := []byte(s)
+	for i, j := 0, len(b)-1; i < j; i, j = i+1, j-1 {
+		b[i], b[j] = b[j], b[i]
+	}
+	return b
+}
+func (revStrCodec) Omit(ptr unsafe.Pointer) bool { return len(*(*string)(ptr)) == 0 }
+func (revStrCodec) WireType() plenccore.WireType { return plenccore.WTLength }
+func (revStrCodec) Descriptor() plenccodec.Descriptor {
+	return plenccodec.Descriptor{Type: plenccodec.FieldTypeString}
+}
+func (revStrCodec) New() unsafe.Pointer { return unsafe.Pointer(new(MarkStr)) }
+func (revStrCodec) Read(data []byte, ptr unsafe.Pointer, wt plenccore.WireType) (int, error) {
+	*(*string)(ptr) = string(revBytes(string(data)))
+	return len(data), nil
+}
+func (revStrCodec) Size(ptr unsafe.Pointer, tag []byte) int {
+	l := len(*(*string)(ptr))
+	if len(tag) == 0 {
+		return l
+	}
+	return len(tag) + plenccore.SizeVarUint(uint64(l)) + l
+}
+func (revStrCodec) Append(data []byte, ptr unsafe.Pointer, tag []byte) []byte {
+	s := *(*string)(ptr)
+	if len(tag) != 0 {
+		data = append(data, tag...)
+		data = plenccore.AppendVarUint(data, uint64(len(s)))
+	}
+	return append(data, revBytes(s)...)
+}
+
+type c19OwnIntern struct {
+	A MarkStr `plenc:"1,intern"`
+	B string  `plenc:"2,intern"`
+	C MarkStr `plenc:"3"`
+}
+type c19OwnPlain struct {
+	A MarkStr `plenc:"1"`
+	B string  `plenc:"2"`
+	C MarkStr `plenc:"3"`
+}
+
+// c19OwnCodec: a named string type with the user's own codec registered, under the intern option
+func c19OwnCodec(c *core.Ctx, idx int) {
+	rec := c.Rec
+	r := c.Rand(idx)
+	cfg := instCfgs()[idx%4]
+	name := cfgName(cfg)
+	p := instNew(cfg)
+	p.RegisterCodec(markStrT, revStrCodec{})
+	vocab := c19Vocab(r)
+	fresh := 0
+	for op := 0; op < 60; op++ {
+		a := c19OwnIntern{A: MarkStr(c19Str(r, vocab, &fresh)), B: c19Str(r, vocab, &fresh), C: MarkStr(c19Str(r, vocab, &fresh))}
+		b := c19OwnPlain{A: a.A, B: a.B, C: a.C}
+		da, err1, pn1 := marshal(p, nil, &a)
+		db, err2, pn2 := marshal(p, nil, &b)
+		rec.Eval(2)
+		if err1 != nil || err2 != nil || pn1 != "" || pn2 != "" || !bytes.Equal(da, db) {
+			rec.Violation("interning", fmt.Sprintf("[%s] a named string type with a registered codec of its own: the encoding changes with the intern option: %s vs %s (%v %v %s %s)", name, hexHead(da), hexHead(db), err1, err2, trunc1(pn1), trunc1(pn2)), nil)
+			return
+		}
+		var ga c19OwnIntern
+		var gb c19OwnPlain
+		e1, p1 := unmarshal(p, db, &ga)
+		e2, p2 := unmarshal(p, db, &gb)
+		if e1 != nil || e2 != nil || p1 != "" || p2 != "" || ga.A != gb.A || ga.B != gb.B || ga.C != gb.C || ga.A != a.A || ga.B != a.B {
+			rec.Violation("interning", fmt.Sprintf("[%s] a named string type with a registered codec of its own: the field decodes to other strings with the intern option: (%q, %q, %q) vs (%q, %q, %q) (%v %v %s %s)", name, ga.A, ga.B, ga.C, gb.A, gb.B, gb.C, e1, e2, trunc1(p1), trunc1(p2)), nil)
+			return
+		}
+	}
+	rec.Count("own_codec_trials", 1)
+	rec.NonTrivial(core.Hash64("own", name, fmt.Sprint(idx)))
 }
 
 func c19Vocab(r *rand.Rand) []string {
@@ -290,6 +373,10 @@ func c19Fills(c *core.Ctx, idx int) {
 func c19Case(c *core.Ctx, idx int) {
 	if idx%23 == 9 {
 		c19Fills(c, idx)
+		return
+	}
+	if idx%29 == 11 {
+		c19OwnCodec(c, idx)
 		return
 	}
 	rec := c.Rec
